@@ -327,6 +327,32 @@ def d3(ctx):
         ctx.check(bool(remb) and w.must_pass(after_scope, w.return_blocks(), remb | ins), "binder-entry-dropped", "without an outer entry the binder's entry is removed after the scope",
                   "Bind::weak_shape_impl can leave the binder's entry in the numbering map after its scope: a later free occurrence of the same name is numbered as if it were bound", where_of(w))
     ctx.check(ok, "outer-binding-restored", "after the scope the saved outer entry is re-inserted on every path", "Bind::weak_shape_impl saves the outer entry but does not restore it after the scope on every path", where_of(w))
+    # ... under the binder's ORIGINAL name: numbering the binder overwrites `self.slot` with its shape name, so the key used when
+    # leaving the scope must be the copy taken before (the same variable the saving `get` was keyed with), not `self.slot` read again
+    def read_point(op):
+        """block in which the value of a Copy operand was read out of a field place (following plain copies of temporaries)"""
+        pl = mir.op_place(op)
+        for _ in range(10):
+            if pl is None:
+                return None
+            if pl["p"]:
+                return ("here",)
+            ds = w.defs().get(pl["l"], [])
+            if len(ds) != 1 or ds[0]["kind"] != "assign" or ds[0]["rv"]["k"] != "use":
+                return None
+            src = mir.op_place(ds[0]["rv"]["op"])
+            if src is not None and src["p"]:
+                return ("bb", ds[0]["bb"])
+            pl = src
+        return None
+    addbb = add[0].bb if add else None
+    for c in list(rem) + [x for x in w.calls if x.callee and x.callee.name == "insert" and x.bb in ins]:
+        rp = read_point(c.args[1])
+        okk = rp is not None and rp[0] == "bb" and addbb is not None and w.dominated_by(addbb, [rp[1]]) and role_mentions_field(w.role_of_operand(c.args[1]), "slot")
+        # (a read "here" happens at the call itself, i.e. after the binder was numbered)
+        ctx.check(okk, "scope-exit-keyed-by-saved-name:" + c.callee.name, "the %s that ends the binder's scope is keyed by the saved name" % c.callee.name,
+                  "Bind::weak_shape_impl ends the binder's scope with %s keyed by %s, not by the name saved before the binder was numbered (add_slot has replaced self.slot by its shape name by then): the binder's entry stays in the numbering map and a junk entry is added — later free occurrences of the name are numbered as bound, alpha-renaming the binder changes the shape, and the returned bijection is wrong" % (c.callee.name, role_str(w.role_of_operand(c.args[1]))[:50]),
+                  where_of(w, c.bb))
 
 
 @rule("D4", doc="private occurrences are determined per occurrence, not per name", once=True)
